@@ -128,6 +128,36 @@ theorem t12_retry_cut_safe (c : Cfg) (m : Bytes) (L : Layout) (hread : readNdef 
   · exact Or.inr (Or.inl ((readNdef_some c _ _).2 h))
   · exact Or.inr (Or.inr ((readNdef_some c _ _).2 h))
 
+/-- **A fault is a cut.**  After any history, the commands the tag executes during an assignment disturbed at command
+`k` are exactly the first `k` commands of the undisturbed assignment (`k + 1` when the tag executes the failing
+command), and the tag then holds its previous content with exactly those commands applied.  So the fault histories of
+this section contain every power cut "after the k-th state-changing command" of every (re)assignment. -/
+theorem t12_fault_is_cut (c : Cfg) (m : Bytes) (L : Layout) (hread : readNdef c m = .ok (some L)) (hwf : WF c m L)
+    (hs : List (Bytes × Option Fault)) (d2 : Bytes) (k : Nat) (late : Bool) :
+    (attemptR c L (historyR c L (freshR m) hs).1 d2 (some ⟨k, late⟩)).cmds
+      = (attemptR c L (historyR c L (freshR m) hs).1 d2 none).cmds.take (k + late.toNat) ∧
+    (attemptR c L (historyR c L (freshR m) hs).1 d2 (some ⟨k, late⟩)).st.tag
+      = apply (historyR c L (freshR m) hs).1.tag
+          ((attemptR c L (historyR c L (freshR m) hs).1 d2 none).cmds.take (k + late.toNat)) := by
+  have hr := (readNdef_some c m L).1 hread
+  have hi := historyR_inv c m L hr hwf hs (freshR m) (InvR.fresh _ m _)
+  have key : (attemptR c L (historyR c L (freshR m) hs).1 d2 (some ⟨k, late⟩)).cmds
+      = (attemptR c L (historyR c L (freshR m) hs).1 d2 none).cmds.take (k + late.toNat) := by
+    unfold attemptR
+    split
+    · simp
+    · split
+      · simp
+      · rename_i hc
+        exact writeFromR_fault c m L d2 _ k late hr hwf (by omega) hi
+  refine ⟨key, ?_⟩
+  rw [← key]
+  unfold attemptR
+  split
+  · rfl
+  · split
+    · rfl
+    · exact writeFromR_tag_apply c L _ d2 _
 /-- **Cut safety over histories (full).**  For every well-formed image and EVERY history of assignments through one
 tag object - any number of attempts, any messages (oversize ones are refused without a command), each attempt
 completed or aborted at ANY state-changing command, the command not executed (lost / power cut) or executed but
